@@ -1,10 +1,22 @@
 """C08 - the read-only API never mutates the network it is given."""
-import contextlib, copy, io, os, random, shutil, tempfile, warnings
+import contextlib, copy, inspect, io, os, random, shutil, tempfile, warnings
 from .. import common as C, histcheck as HC, gallina as G, hgsim, disim, scsim, api_surface
 from . import base
 
 PROP = "C08"
 IMPORTS = "Base.Label Base.Attr Base.Outcome Model.Hypergraph Model.HgCheck"
+
+
+# admissible values for optional parameters that occur across the API (never in_place=True)
+OPTION_VALUES = {
+    "max_order": (1, 2), "order": (1, 2), "d": (1,), "sparse": (True, False), "weighted": (True,), "index": (True,),
+    "in_place": (False,), "s": (2,), "weights": ("absolute", "normalized"), "subset_types": ("immediate", "empirical"),
+    "exact": (True,), "kind": ("top-2",), "normalized": (True,), "rescale_per_node": (True,), "min_size": (1, 3),
+    "exclude_min_size": (False,), "ignore_singletons": (True,), "strict": (False,), "hull": (True,),
+    "node_labels": (True,), "hyperedge_labels": (True,), "rescale_sizes": (False,), "seed": (3,),
+    "include_self": (True,), "cutoff": (5,), "tol": (1e-3,), "max_iter": (5,), "iterations": (3,),
+    "p": (0.5,), "k": (2,), "create_using": (None,),
+}
 
 
 def deep_snapshot(H):
@@ -169,6 +181,17 @@ def sweep(H, surf, tmp, rng, counts):
             calls.append((name, rec[name]))
         elif not req:
             calls.append((name, (lambda f=f: f(H))))
+        # the same callable with its optional arguments set, one at a time
+        try:
+            params = inspect.signature(f).parameters
+        except (TypeError, ValueError):
+            params = {}
+        if not [r for r in req if r not in OPTION_VALUES]:
+            for pn in params:
+                for val in OPTION_VALUES.get(pn, ()):
+                    kw = {r: OPTION_VALUES[r][0] for r in req}
+                    kw[pn] = val
+                    calls.append((f"{name}({pn}={val!r})", (lambda f=f, kw=kw: f(H, **kw))))
     for name, th in methods(H, rng).items():
         calls.append(("H." + name, th))
     rng.shuffle(calls)
